@@ -197,7 +197,7 @@ def ref_table(ctx, site, dtype):
         T = site_call(site, api, X, y)
     T = torch.Tensor.as_subclass(T, torch.Tensor).detach().reshape(K, K, -1)
     # item-by-item validation of sampled entries
-    nval = K * K if (not ctx.quick and dtype == "float64") else 24
+    nval = K * K if (not ctx.quick and dtype == "float64") else 12
     tol = 256 * common.EPS[dtype]
     for _ in range(nval) if nval < K * K else [None]:
         pairs = [(ctx.rng.randrange(K), ctx.rng.randrange(K))] if nval < K * K else list(itertools.product(range(K), range(K)))
@@ -435,6 +435,17 @@ BIG = [(5,), (7, 2), (6, 1), (2, 1, 3, 2), (4, 1, 1, 2), (1, 1, 1, 1, 2), (2, 2,
 VIEWS = [None, "slice", "perm", "expand"]
 
 
+def sizes_for(lt):
+    """lshapes whose extents coincide with small special numbers: the item width d and the manifold dimension m of the
+    ltype itself (batch axis mistaken for the item axis), 3 and 4 (points / quaternions / torch.cross), a prime"""
+    d, m = DIM[lt], MANIFOLD[lt]
+    out = []
+    for s_ in [(d,), (m,), (3,), (4,), (d, d), (3, d), (d, 3), (4, 3), (1, d), (11,)]:
+        if s_ not in out:
+            out.append(s_)
+    return out
+
+
 def det_rng():
     """generator of the deterministic corner corpora: the same cases for every VERIF_SEED"""
     return random.Random(20260925)
@@ -459,13 +470,20 @@ def corpus_bcast(full=True):
     core_pairs = [(a, b) for a in CORE for b in CORE if py_broadcast(a, b) is not None]
     for si, site in enumerate(SITE_KEYS):
         for pi, (sa, sb) in enumerate(core_pairs):
-            if (si + pi) % 2 == 0 or full:      # quick: every second core pair per site (fixed, not seeded)
+            if (si + pi) % 4 == 0 or full:      # quick: every fourth core pair per site (fixed, not seeded)
                 cases.append(mk_bcast(rng, site, sa, sb, k=si + pi))
     big_pairs = [(a, b) for a in BIG + CORE[:6] for b in BIG if py_broadcast(a, b) is not None]
     big_pairs += [(b, a) for a in CORE[:6] for b in BIG if py_broadcast(a, b) is not None]
     for pi, (sa, sb) in enumerate(big_pairs):
-        for j in range(3):
+        for j in range(3 if full else 2):
             cases.append(mk_bcast(rng, SITE_KEYS[(pi * 3 + j * 13) % len(SITE_KEYS)], sa, sb, k=pi + j))
+    for si, site in enumerate(SITE_KEYS):            # special sizes, in both batch positions, for every site
+        for zi, s_ in enumerate(sizes_for(site[0])):
+            kinds = [(s_, s_), (s_, ()), ((), s_), (s_, s_[-1:]), (s_[-1:], s_)]
+            for j in (0, 1 + (si + zi) % 4):
+                sa, sb = kinds[j]
+                if py_broadcast(sa, sb) is not None and (full or zi < 4 or (si + zi + j) % 3 == 0):
+                    cases.append(mk_bcast(rng, site, sa, sb, k=si + zi + j))
     for pi, (sa, sb) in enumerate([((2,), (3,)), ((2, 3), (2,)), ((5,), (7, 2)), ((2, 1, 3, 2), (3, 1)), ((0,), (2,)), ((3,), (0,))]):
         for j in range(6):
             cases.append(mk_bcast(rng, SITE_KEYS[(pi * 7 + j * 5) % len(SITE_KEYS)], sa, sb, k=j))
@@ -479,6 +497,8 @@ def gen_bcast_cases(ctx: Ctx, good_pairs, bad_pairs):
     if ctx.quick:
         # every broadcastable pair meets one of the eight group ops (op and group rotating with pair and seed)
         for pi, (sa, sb) in enumerate(good_pairs):
+            if (pi + ctx.seed) % 4:
+                continue            # every fourth pair per run (binputs still sees every pair every run; thorough: all)
             for oi, op in enumerate(ops_g):
                 g = GROUPS[(pi + oi + ctx.seed) % 4]
                 if (pi * 5 + oi + ctx.seed) % 8 >= 1:
@@ -486,7 +506,7 @@ def gen_bcast_cases(ctx: Ctx, good_pairs, bad_pairs):
                 cases.append(mk_bcast(rng, (g, op), sa, sb))
             if (pi + ctx.seed) % 4 == 0:
                 cases.append(mk_bcast(rng, (ALGEBRA[GROUPS[(pi + ctx.seed) % 4]], "alg_add"), sa, sb))
-        for (sa, sb) in rng.sample(bad_pairs, 200):
+        for (sa, sb) in rng.sample(bad_pairs, 120):
             cases.append(mk_bcast(rng, rng.choice(SITE_KEYS), sa, sb))
     else:
         for site in SITE_KEYS:
@@ -715,6 +735,7 @@ def gen_handled_cases(ctx: Ctx, names):
     cases = []
     # deterministic corpus first (the same recipes for every seed), then the seeded random recipes
     for rng, per, det in ((det_rng(), 5, True), (ctx.rng, ctx.pick(8, 200), False)):
+        UH.EXTENTS = [0, 1, 2, 3, 3, 4, 5, 7, 8] if det else [0, 1, 2, 3, 2, 3]     # corpus: extents equal to item widths, 4, a prime
         for n in todo:
             if n in NO_CALLABLE or n not in RECIPES:
                 continue
@@ -868,8 +889,10 @@ def stream_unary(ctx: Ctx):
     cases = []
     rng = det_rng()
     for li, lt in enumerate(LTYPES):            # corner corpus: every op on the core / beyond-range lshapes
-        for si, s in enumerate(CORE + BIG):
+        for si, s in enumerate(CORE + BIG + (sizes_for(lt)[:6] if ctx.quick else sizes_for(lt))):
             for oi, (op, apis, out) in enumerate(unary_ops(lt)):
+                if ctx.quick and (li + si + oi) % 2:
+                    continue            # quick: a fixed half of the corpus (not seeded); thorough: all of it
                 cases.append(mk(rng, lt, op, apis, s, k=li + si + oi))
     rng = ctx.rng
     for li, lt in enumerate(LTYPES):
@@ -877,7 +900,7 @@ def stream_unary(ctx: Ctx):
         for si, s in enumerate(SHAPES):
             if ctx.quick and s in CORE:
                 continue
-            chosen = ops if not ctx.quick else [ops[(si + li + k * 3 + ctx.seed) % len(ops)] for k in range(2)]
+            chosen = ops if not ctx.quick else [ops[(si + li + k * 3 + ctx.seed) % len(ops)] for k in range(1)]
             for op, apis, out in chosen:
                 cases.append(mk(rng, lt, op, apis, s))
     for case in cases:
@@ -976,15 +999,17 @@ def stream_ctor(ctx: Ctx):
     whats = ["identity", "randn", "randn_tuple", "randn_grad", "identity_like", "randn_like", "ltype_ctor", "alias_ctor",
              "identity_like_kw", "randn_like_kw"]
     for li, lt in enumerate(LTYPES):            # corner corpus: everything on the core / beyond-range lshapes, both dtypes
-        for si, s in enumerate(CORE + BIG):
+        for si, s in enumerate(CORE + BIG + (sizes_for(lt)[:6] if ctx.quick else sizes_for(lt))):
             for wi, w in enumerate(whats):
-                case = {"kind": "ctor", "lt": lt, "s": list(s), "dtype": ["float64", "float32"][(li + si + wi) % 2], "what": w}
+                if ctx.quick and (li + si + wi) % 2:
+                    continue            # quick: a fixed half of the corpus (not seeded); thorough: all of it
+                case = {"kind": "ctor", "lt": lt, "s": list(s), "dtype": ["float64", "float32"][(li + si + wi // 2) % 2], "what": w}
                 check_ctor(ctx, case)
                 ctx.note_case(("ctor", lt, w, s), True)
                 ctx.count(f"ctor.{w}")
     for li, lt in enumerate(LTYPES):
         for si, s in enumerate(SHAPES):
-            ws = whats if not ctx.quick else [whats[(si + li + ctx.seed + 3 * k) % len(whats)] for k in range(2)]
+            ws = whats if not ctx.quick else [whats[(si + li + ctx.seed + 3 * k) % len(whats)] for k in range(1)]
             if ctx.quick and s in CORE:
                 ws = []
             for w in ws:
@@ -1078,7 +1103,15 @@ def special_rotations():
                         ("beyond-pi", [0.1, 0.7, 0.7], math.pi + 0.4)):
         n = math.sqrt(sum(c * c for c in ax))
         add(nm, _qaxis(ax, ang), [c / n * ang for c in ax])
-    q = _qaxis([0.4, 0.5, -0.76], 2.2)
+    # spacing relative to the thresholds of the per-item branches, both signs: euler's lock band |t2| >= 1 - 2e-4
+    # (t2 = sin(pitch)), and the small-angle switches at eps(float32) / eps(float64)
+    for nm, t2 in (("band-below", 1 - 2e-4 - 1e-6), ("band-at", 1 - 2e-4), ("band-above", 1 - 2e-4 + 1e-6), ("band-far-above", 1 - 1e-9)):
+        for sg in (1.0, -1.0):
+            add(f"{nm}{'+' if sg > 0 else '-'}", _qeuler(-0.4, sg * math.asin(t2), 0.9), None)
+    for nm, ang in (("eps32/2", 2.0 ** -24), ("eps32", 2.0 ** -23), ("eps32*2", 2.0 ** -22), ("eps64/2", 2.0 ** -53), ("eps64", 2.0 ** -52),
+                    ("eps64*2", 2.0 ** -51), ("sqrt-eps64", 2.0 ** -26)):
+        ax = [0.6, -0.64, 0.48]
+        add(f"angle-{nm}", _qaxis(ax, ang), [c * ang for c in ax])
     add("w-negative", [-c for c in _qaxis([0.4, 0.5, -0.76], 4.5)], None)
     return out
 
@@ -1246,8 +1279,11 @@ def stream_regime(ctx: Ctx):
             for oi, (op, apis, out) in enumerate(unary_ops(lt)):
                 # two-item batches (special, ordinary) in both orders: all of them (thorough) / every third, rotating with
                 # the op so that each special item is paired under every third op (quick; deterministic)
-                p2 = pairs2 if not ctx.quick else [pr for j, pr in enumerate(pairs2) if (j // 2 + oi) % 3 == 0]
-                for order, shape in ((layouts + p2) if dtype == "float64" or not ctx.quick else layouts[:3]):
+                branchy = op in ("euler", "Jr", "Log", "Exp", "quat2unit")       # ops with per-item threshold branches: all pairs
+                if ctx.quick and dtype == "float32" and not branchy:
+                    continue
+                p2 = pairs2 if (not ctx.quick or branchy) else []
+                for order, shape in ((layouts + p2) if dtype == "float64" or not ctx.quick else layouts[:2]):
                     case = {"kind": "regime", "lt": lt, "op": op, "api": rng.choice(sorted(apis)), "dtype": dtype,
                             "order": order, "shape": list(shape)}
                     check_regime(ctx, case)
@@ -1260,7 +1296,9 @@ def stream_regime(ctx: Ctx):
             ny = POOLS.K if spec["py"] in ("p3", "p4") else regime_corpus(spec["py"], dtype)[1].shape[0]
             n = min(nx, ny)
             shifts = [0, 3] + [rng.randrange(n) for _ in range(ctx.pick(1, 8))]
-            for sh in (shifts if dtype == "float64" or not ctx.quick else shifts[:1]):
+            if ctx.quick:       # quick: one fixed and one seeded pairing in float64, the other fixed pairing in float32
+                shifts = [0, shifts[2]] if dtype == "float64" else [3]
+            for sh in shifts:
                 case = {"kind": "regime2", "site": list(site), "api": rng.choice(sorted(spec["apis"])), "ycase": rng.choice(["lie", "plain"]),
                         "dtype": dtype, "ox": list(range(n)), "oy": [(k + sh) % n for k in range(n)]}
                 check_regime2(ctx, case)
@@ -1703,11 +1741,11 @@ def stream_purity(ctx: Ctx):
     ctx.count("purity.covered", len([n for n in pub if n in reg]))
     ctx.notes.append("public callables without synthesised arguments in C06's sweep (covered by the monitors of their own "
                      "properties): " + ", ".join(unc))
-    reps = ctx.pick(7, 80)
+    reps = ctx.pick(4, 80)
     rejected = {}
     for n in names:
         for k in range(reps):
-            if k < 4:       # deterministic corpus: the same four argument sets per function for every seed
+            if k < (3 if ctx.quick else 4):       # deterministic corpus: the same argument sets per function for every seed
                 case = {"kind": "purity", "fn": n, "variant": [0, 1, 199, 1366][k], "data_seed": 1000 + 17 * k + sum(map(ord, n))}
             else:
                 case = {"kind": "purity", "fn": n, "variant": ctx.rng.randrange(1 << 12), "data_seed": ctx.rng.randrange(1 << 30)}
@@ -1854,7 +1892,7 @@ def stream_reuse(ctx: Ctx):
                            f"{[describe(getattr(m, n_), orig) for m, n_ in torch_slots()]}")
             _restore_slots(orig)
     # one LieTensor / Parameter object as operand of every site, partner shape and dtype-compatible variant varied per call
-    partner_shapes = [(3,), (), (2, 3), (1,), (3,), (0, 3)]
+    partner_shapes = [(3,), (), (2, 3), (1,), (3,), (0, 3)] if not ctx.quick else [(3,), (), (2, 3), (0, 3)]
     with warnings.catch_warnings():
         warnings.simplefilter("ignore")
         for lt in LTYPES:
@@ -2007,6 +2045,9 @@ def snapshot_globals():
 
 # ============================================================================= entry points (streams are added below)
 
+PASS2 = ["argcombo", "errors", "gradmode", "duck", "copies", "ownership", "interleave"]
+
+
 def guarded(ctx: Ctx, name, fn):
     """any misbehaviour of the implementation that escapes a stream's own handling becomes a failing case of the
     property (replayable by re-running the stream) — never an exception of the harness"""
@@ -2035,6 +2076,9 @@ def run(ctx: Ctx):
     guarded(ctx, "regime", lambda: stream_regime(ctx))
     guarded(ctx, "alias", lambda: stream_alias(ctx))
     guarded(ctx, "reuse", lambda: stream_reuse(ctx))
+    from . import util_c06b as B2
+    for nm2 in PASS2:
+        guarded(ctx, nm2, (lambda f: lambda: f(ctx))(getattr(B2, "stream_" + nm2)))
     guarded(ctx, "tf", lambda: stream_tf(ctx, names))
     guarded(ctx, "retain", lambda: stream_retain(ctx))
     # … then the streams that start with their own deterministic corpus and continue with seeded cases
@@ -2063,7 +2107,8 @@ def search(ctx: Ctx):
         names = list(L.HANDLED_FUNCTIONS)
         for st in (lambda: stream_handled(ctx, names), lambda: stream_tf(ctx, names), lambda: stream_retain(ctx),
                    lambda: stream_ctor(ctx), lambda: stream_unary(ctx), lambda: stream_regime(ctx), lambda: stream_purity(ctx),
-                   lambda: stream_persistent(ctx), lambda: stream_alias(ctx), lambda: stream_reuse(ctx)):
+                   lambda: stream_persistent(ctx), lambda: stream_alias(ctx), lambda: stream_reuse(ctx)) + tuple(
+                (lambda f: lambda: f(ctx))(getattr(__import__("harness.util_c06b", fromlist=["x"]), "stream_" + n2)) for n2 in PASS2):
             st()
             if ctx.failures:
                 return
@@ -2092,6 +2137,9 @@ def replay(ctx: Ctx, case) -> bool:
             compare_handled(ctx, c, ex, ctx.driver.run(ex["lines"]))
     elif kind == "unary":
         check_unary(ctx, c)
+    elif kind in PASS2:
+        from . import util_c06b as B2
+        getattr(B2, "stream_" + kind)(ctx)
     elif kind in ("reuse", "alias", "crash", "globals") or c.get("stream") == "persistent":
         from pypose.lietensor import lietensor as L
         nm = list(L.HANDLED_FUNCTIONS)
@@ -2099,7 +2147,8 @@ def replay(ctx: Ctx, case) -> bool:
         {"reuse": lambda: stream_reuse(ctx), "alias": lambda: stream_alias(ctx), "persistent": lambda: stream_persistent(ctx),
          "regime": lambda: stream_regime(ctx), "tf": lambda: stream_tf(ctx, nm), "retain": lambda: stream_retain(ctx),
          "handled": lambda: stream_handled(ctx, nm), "ctor": lambda: stream_ctor(ctx), "unary": lambda: stream_unary(ctx),
-         "purity": lambda: stream_purity(ctx), "bcast": lambda: stream_bcast(ctx)}[which]()
+         "purity": lambda: stream_purity(ctx), "bcast": lambda: stream_bcast(ctx),
+         **{n2: (lambda n2=n2: getattr(__import__("harness.util_c06b", fromlist=["x"]), "stream_" + n2)(ctx)) for n2 in PASS2}}[which]()
     elif kind == "regime":
         check_regime(ctx, c)
     elif kind == "regime2":
